@@ -341,11 +341,26 @@ func simpSelfcheck(ts *TermStore) bool {
 		s.stack = nil
 		r, m, _ := s.Check([]*Term{bad}, nil)
 		n++
+		if r == Unknown {
+			// multiplications by large constants: the integer encoding decides them
+			r, m, _ = OneShot([]string{"cvc5", "--solve-bv-as-int=sum", "--tlimit=60000"}, []*Term{bad}, nil, 60*time.Second)
+		}
 		if r != Unsat {
 			fmt.Println("selftest: simplifier rule not valid:", what, r, m)
 			return false
 		}
 		return true
+	}
+	// (x*c)/c = x
+	for _, c := range []uint64{3, 1000, 1000000} {
+		for _, x := range []*Term{ts.Bin(OpAdd, d, ts.Const(64, 77)), ts.ZExt(ts.Var("v22", 22), 64)} {
+			k := ts.Const(64, c)
+			p := ts.Bin(OpMul, x, k)
+			raw, simp := ts.mk(OpUDiv, 64, 0, "", p, k), ts.Bin(OpUDiv, p, k)
+			if !check(fmt.Sprintf("(%s*%d)/%d", x, c, c), ts.mk(OpNot, 0, 0, "", ts.mk(OpEq, 0, 0, "", raw, simp))) {
+				return false
+			}
+		}
 	}
 	for _, x := range xs {
 		lo, hi := ts.ubounds(x)
